@@ -7,6 +7,7 @@ import (
 	mrand "math/rand"
 	"os"
 	"path/filepath"
+	"sort"
 	"strings"
 	"testing"
 
@@ -39,6 +40,23 @@ func runC26(r *Run, seed int64, c c26Case) {
 	if m.Start() != nil {
 		r.Inconclusive("start")
 		return
+	}
+	// three peers that were quarantined earlier (operator command), listed in descending key order, each with an
+	// otherwise perfectly usable channel: the quarantine list the new entry is added to is neither empty nor sorted
+	var earlier []*sim.Peer
+	scidOf := map[string]string{}
+	for i := 0; i < 3; i++ {
+		x := w.AddPeer(fmt.Sprintf("xavier%d", i))
+		scidOf[x.ID] = fmt.Sprintf("%dx1x0", 400+i)
+		w.LN.OpenChannel(scidOf[x.ID], m.ID, x.ID, 5_000_000_000, 5_000_000_000)
+		earlier = append(earlier, x)
+	}
+	sort.Slice(earlier, func(i, j int) bool { return earlier[i].ID > earlier[j].ID })
+	for _, x := range earlier {
+		if err := m.Inc().Policy.AddToSuspiciousPeerList(x.ID); err != nil {
+			r.Inconclusive("cannot pre-quarantine: " + err.Error())
+			return
+		}
 	}
 	chain := w.BTC
 	if c.chain == "lbtc" {
@@ -152,6 +170,43 @@ func runC26(r *Run, seed int64, c c26Case) {
 				if ag || !cancel {
 					r.Violate("cannot-start-swaps", fmt.Sprintf("C26|request-from-quarantined-peer-not-refused|%s|%s", rt, phase), det(fmt.Sprintf("agreement=%v cancel=%v", ag, cancel)), traceOf(w))
 				}
+			}
+		}
+		// the peers quarantined earlier stay quarantined as well
+		for xi, x := range earlier {
+			rid := swap.NewSwapId()
+			mt, payload := c10Request([]string{"in", "out"}[xi%2], rid, scidOf[x.ID], c.chain)
+			before := len(x.Inbox)
+			x.Send("alice", mt, payload)
+			w.Run()
+			ag, cancel := false, false
+			for _, msg := range x.Inbox[before:] {
+				switch msg.Type {
+				case ref.MsgSwapInAgreement, ref.MsgSwapOutAgreement:
+					ag = true
+				case ref.MsgCancel:
+					cancel = true
+				}
+			}
+			r.Count("followup_requests_earlier_quarantined", 1)
+			if ag || !cancel {
+				r.Violate("cannot-start-swaps", fmt.Sprintf("C26|request-from-earlier-quarantined-peer-not-refused|%s", phase), det(fmt.Sprintf("peer %d of the list: agreement=%v cancel=%v", xi, ag, cancel)), traceOf(w))
+			}
+		}
+		if round == 0 {
+			// control: the same kind of request from a peer that is not quarantined is answered with an agreement
+			mt, payload := c10Request("in", swap.NewSwapId(), "300x1x0", c.chain)
+			before := len(q.Inbox)
+			q.Send("alice", mt, payload)
+			w.Run()
+			ok := false
+			for _, msg := range q.Inbox[before:] {
+				if msg.Type == ref.MsgSwapInAgreement {
+					ok = true
+				}
+			}
+			if !ok {
+				r.Inconclusive("control request of a non-quarantined peer was not admitted: the refusals above prove nothing")
 			}
 		}
 		// local initiations towards P
